@@ -286,6 +286,23 @@ class InterposedQuery(Oracle):
                 pass
 
 
+class QueryAfterRound(Oracle):
+    """Environment move: get_last_point() may be called after a round (choice point of kind 'query'); put it BEFORE
+    the oracles that inspect the state in after_round."""
+
+    name = "query"
+
+    def after_round(self, ctx):
+        if ctx.src.choose("query", 2):
+            try:
+                ctx.algo.get_last_point()
+                ctx.extra["stats"].bump("queries_after_round")
+            except (Violation, HarnessError):
+                raise
+            except Exception:  # noqa: cannot recommend yet (finding D10 of C01)
+                pass
+
+
 class Stats:
     """Counters of one task; merged by the parent."""
 
